@@ -40,7 +40,7 @@ class A(Adapter):
         # is the environment's, also when the two differ
         for tl, ms in ((3, 9), (7, 12)):
             d = dict(base[1])
-            d.update(id=f"n12a2+tl{tl}+ms{ms}", tl=tl, ms=ms, quick=False, clock=True)
+            d.update(id=f"n12a2+tl{tl}+ms{ms}", tl=tl, ms=ms, quick=(tl == 3), clock=True)
             out.append(d)
         return out
 
